@@ -22,6 +22,7 @@ mod compressed;
 mod deploy;
 mod disk;
 mod framework;
+mod history;
 mod json;
 mod mirror;
 #[cfg(feature = "engine-shuttle")]
